@@ -56,13 +56,17 @@ _RE_COV = re.compile(r"^<(\w+) line \d+, col \d+ to line \d+, col \d+ of module 
 _RE_ERR = re.compile(r"^Error: (.*)$", re.M)
 
 
+# modules generated at check time (name, text), written next to the copied specs for every TLC run
+EXTRA_MODULES: list = []
+
+
 def _prepare_dir(spec_module: str, cfg_text: str | None, cfg_file: str | None, extra_modules=()):
     """Copy the specs into a scratch dir (TLC writes next to the spec) and return it."""
     d = tempfile.mkdtemp(prefix="tlc-", dir=scratch_root())
     for f in os.listdir(SPECS):
         if f.endswith(".tla"):
             shutil.copy(os.path.join(SPECS, f), d)
-    for name, text in extra_modules:
+    for name, text in list(EXTRA_MODULES) + list(extra_modules):
         with open(os.path.join(d, name), "w") as fh:
             fh.write(text)
     cfgp = os.path.join(d, spec_module + ".run.cfg")
